@@ -8,6 +8,13 @@ _SCHED_RULE = (
     ">= 2 tasks or a copying transport (reduce/dill); single-task by-reference map calls are trivial and not counted. "
 )
 
+_RVS = {
+    "real": ["thejoker python modules (staged from /repo working tree)", "CJokerHelper compiled kernel", "twobody C", "h5py", "PyTables", "astropy", "numpy Generator/PCG64/SeedSequence", "dill", "pymc/pytensor priors", "schwimmbad.SerialPool (observed)"],
+    "simulated": ["processing pool scheduling + transport (SimPool stands in for schwimmbad.MultiPool)", "worker processes (in-process, data-isolated by reduce/dill copies)"],
+    "none": ["clock/timers: the package has none"],
+}
+_RVS_STUB = dict(_RVS, stubbed_in_a_fraction_of_runs=["kernel OUTPUT of designated library rows overridden to -inf (sim/llproxy.py) in ~15% of runs, counted by the probe runs_with_neg_inf_profile_stub; everything else in those runs is the real kernel"])
+
 META = {
     "C05": {
         "level": "exploration",
@@ -28,6 +35,7 @@ META = {
     },
     "C02": {
         "level": "exploration",
+        "real_vs_stub": _RVS_STUB,
         "technique": "deterministic simulation: history check at the RNG seam (recorded uniforms/shuffles) against a reference acceptance model, over paths x schedules x seeds",
         "level_text": "Seeded exploration: every rejection_sample call (in-memory / cache / file, shuffled or not, truncated or not, under seeded pool schedules) is judged from the "
         "history recorded at the RNG, pool and storage seams: rows evaluated (from the task lists / in-memory evaluation point), the uniform vector drawn on the sampler's own generator, "
@@ -50,6 +58,7 @@ META = {
     },
     "C06": {
         "level": "exploration",
+        "real_vs_stub": _RVS_STUB,
         "technique": "deterministic simulation: unique-tag attribution of ln_prior/ln_likelihood through three index spaces over paths x schedules",
         "level_text": "Every library row carries a unique ln_prior tag; with return_logprobs the returned tag must name the library row whose nonlinear values the row holds and ln_likelihood must be L* of that row; "
         "return_all_logprobs must equal L* in evaluation order; both samplers, all paths, shuffled/subset/truncated configurations biased so that the three index spaces differ.",
@@ -92,6 +101,7 @@ META = {
     },
     "C14": {
         "level": "exploration",
+        "real_vs_stub": _RVS_STUB,
         "technique": "deterministic simulation: history check over RNG + storage + pool seams with NaN-row storage fault",
         "level_text": "Every iterative_rejection_sample call is judged from the recorded history: rows handed to the likelihood (no row twice, at most min(max_prior_samples, N)), the last uniform vector on the sampler's generator, L* over all evaluated rows, "
         "reference acceptance against the max over ALL evaluated rows, first n_requested accepted returned with their linear draws; too-small libraries must raise; any outcome other than a JokerSamples or a raised exception is a violation. The growth schedule is not in the oracle.",
